@@ -107,6 +107,7 @@ type vfNet struct {
 	onWrite func(side int, raw []byte) // optional tap (e.g. crash-point injection); called without net.mu
 	snapFn  func(side int) *vfSnap
 	afterSettle func() // lock-step mode: runs on the pump goroutine after every settle
+	holeSeen   int
 	closeGrace time.Duration // injected yield delays (spec.Yield) stretch a write that was already on its way over virtual time
 	nDrop   int
 	nDup    int
@@ -239,6 +240,18 @@ func (n *vfNet) send(from int, raw []byte) {
 		case "delay":
 			delay += time.Duration(f.DelayUs) * time.Microsecond
 			n.nDelay++
+		}
+	}
+	// a hole: the packets carrying one particular TSN of direction 0 are dropped the first HoleTimes times
+	if n.cfg.HoleTimes > 0 && from == 0 && n.holeSeen < n.cfg.HoleTimes && (kind == "DATA" || kind == "I-DATA") {
+		pk := vfDecode(cp)
+		for i := range pk.Chunks {
+			if c := &pk.Chunks[i]; c.isData() && c.TSN == n.cfg.HoleTSN {
+				drop = true
+				n.holeSeen++
+
+				break
+			}
 		}
 	}
 	if n.faultsOn {
